@@ -468,7 +468,7 @@ func runC19(c *Ctx) {
 	c.Clause("C19.6 in the request and response writers no pseudo-header emission is reachable from a regular-field emission")
 	c.Clause("C19.7 the response writer tests the Trailer: prefix on the key as set by the handler, not on the lower-cased name")
 	c.Clause("C19.8 parseHeaders does not use the emptiness of a stored value as its not-seen-yet marker (duplicate pseudo-headers, Content-Length)")
-	c.Clause("C19.11 the response writer drops connection, proxy-connection, transfer-encoding, upgrade and keep-alive like the request writer (and like parseHeaders rejects them); C19.12 a content-length field that was seen is always validated as a number, the empty value included")
+	c.Clause("C19.11 the response writer drops connection, proxy-connection, transfer-encoding, upgrade and keep-alive like the request writer (and like parseHeaders rejects them); C19.12 a content-length field that was seen is always validated as a number, the empty value included; C19.13 a trailer section that does not parse resets the stream with H3_MESSAGE_ERROR (both directions)")
 	c.Clause("C19.10 an empty Request.Method is written as GET")
 	c.Clause("C19.9 the request writer classifies a request as Extended CONNECT only for method CONNECT and a non-empty protocol, the condition the parser uses")
 	c.NotCovered("httpguts predicates themselves; semantic equality of decoded fields")
@@ -485,6 +485,7 @@ func runC19(c *Ctx) {
 	c.rule("C19.10", func() { c19EmptyMethodIsGET(c) })
 	c.rule("C19.11", func() { c19ResponseWriterDropsConnectionSpecific(c) })
 	c.rule("C19.12", func() { c19ContentLengthAlwaysValidated(c) })
+	c.rule("C19.13", func() { c19MalformedTrailersResetStream(c) })
 }
 
 // callsParam: call of the function-typed parameter with the given name.
